@@ -134,6 +134,11 @@ func (index *GsfaReader) Get(
 		if err != nil {
 			return nil, fmt.Errorf("error while reading linked log with next=%d: %w", next, err)
 		}
+		// Records are appended: the previous record of an address always lies before the current one.
+		// Anything else is a corrupt log (and would make this walk cycle forever).
+		if !newNext.IsZero() && newNext.Offset >= next.Offset {
+			return nil, fmt.Errorf("corrupt linked log: record at offset %d points to a previous record at offset %d", next.Offset, newNext.Offset)
+		}
 		debugln("sigIndexes:", locations, "newNext:", newNext)
 		next = &newNext
 		for _, sigIndex := range locations {
@@ -185,6 +190,11 @@ bigLoop:
 		locations, newNext, err := index.ll.ReadWithSize(next.Offset, next.Size)
 		if err != nil {
 			return nil, fmt.Errorf("error while reading linked log with next=%v: %w", next, err)
+		}
+		// Records are appended: the previous record of an address always lies before the current one.
+		// Anything else is a corrupt log (and would make this walk cycle forever).
+		if !newNext.IsZero() && newNext.Offset >= next.Offset {
+			return nil, fmt.Errorf("corrupt linked log: record at offset %d points to a previous record at offset %d", next.Offset, newNext.Offset)
 		}
 		debugln("sigIndexes:", locations, "newNext:", newNext)
 		next = &newNext
